@@ -38,19 +38,30 @@ def parseMap (s : String) : Option Attrs :=
     | _ => none
 
 def handleFilter (fs : Fields) : String :=
-  match (fget fs "s").bind dec, (fget fs "attrs").bind parseMap with
-  | some s, some attrs =>
-    match parse s with
-    | .unsupported => "R parse=unsupported"
-    | .reject => "R parse=reject"
-    | .ok c =>
-      let r := render c
-      let re := match parse r with
-        | .ok c' => if showCond c' == showCond c then "same" else "diff"
-        | .reject => "reject"
-        | .unsupported => "unsupported"
-      s!"R parse=ok ast={showCond c} eval={c.eval attrs} render={enc r} reparse={re}"
-  | _, _ => "ERROR bad filter line"
+  match (fget fs "s").bind dec with
+  | none => "ERROR bad filter line"
+  | some s =>
+    let attrsl : Option (List Attrs) := ((fget fs "attrsl").getD "").splitOn ";" |>.mapM parseMap
+    match attrsl with
+    | none => "ERROR bad attrs"
+    | some al =>
+      match parse s with
+      | .unsupported => "R parse=unsupported"
+      | .reject => "R parse=reject"
+      | .ok c =>
+        let r := render c
+        -- the printer decides identifier-vs-quoted and printability with Go's unicode tables:
+        -- outside ASCII the rendered text is not modelled
+        let ascii := r.toList.all (fun ch => ch.toNat < 128)
+        let re := match parse r with
+          | .ok c' => if showCond c' == showCond c then "same" else "diff"
+          | .reject => "reject"
+          | .unsupported => "unsupported"
+        let bits := String.ofList (al.map fun a => if c.eval a then '1' else '0')
+        let doc := match docVerdict s with
+          | .doc => "doc" | .quotedKeyword => "quoted" | .comment => "comment"
+        if ascii then s!"R parse=ok ast={showCond c} eval={bits} render={enc r} reparse={re} doc={doc}"
+        else s!"R parse=ok ast={showCond c} eval={bits} render=unsupported reparse=unsupported doc={doc}"
 
 def handleBackoff (fs : Fields) : String :=
   let opt (k : String) : Option Int := match fget fs k with
